@@ -122,9 +122,8 @@ pub(crate) fn observe(orders: &Orders, name: &str) -> St {
 }
 
 fn any_tf(tag: u8) -> (u8, u8, u8) {
-    let t: u8 = kani::any();
-    let f: u8 = kani::any();
-    kani::assume(t < 4 && f <= QUANTITY);
+    let t = any_u8_lt(4);
+    let f = any_u8_lt(QUANTITY + 1);
     (t, f, tag)
 }
 /// pre kinds: 0 untracked, 1 OpenInFlight, 2 Open, 3 CancelInFlight(None), 4 CancelInFlight(Some)
@@ -132,9 +131,9 @@ pub(crate) fn any_pre(kind: u8, tag: u8) -> St {
     match kind {
         0 => St::Untracked,
         1 => St::Oif,
-        2 => { let (t, f, g) = any_tf(tag); kani::assume(f < QUANTITY); St::Open(t, f, g) }
+        2 => { let (t, f, g) = any_tf(tag); assume(f < QUANTITY); St::Open(t, f, g) }
         3 => St::Cif(None),
-        _ => { let (t, f, g) = any_tf(tag); kani::assume(f < QUANTITY); St::Cif(Some((t, f, g))) }
+        _ => { let (t, f, g) = any_tf(tag); assume(f < QUANTITY); St::Cif(Some((t, f, g))) }
     }
 }
 /// The bystander's KIND is concrete per harness (a symbolic enum variant inside the map defeats CBMC's constant
